@@ -50,7 +50,8 @@ ASSUMPTIONS = [
 REQUIRED = ["union_volume_checked", "level1_checked", "level2_checked", "levels_3_4", "levels_5_9",
             "two_arm_roots", "two_arm_sampled_levels", "overlapping_neighbours",
             "tangent_neighbours", "disjoint_neighbours", "growing_radii", "tapering_radii",
-            "frontend_checked", "named_levels_checked", "same_skeleton_other_radii"]
+            "frontend_checked", "named_levels_checked", "same_skeleton_other_radii",
+            "zero_radius_tips", "far_exact_layouts"]
 FLOOR = {"quick": 700, "thorough": 14000}
 SHARDS = {"quick": 8, "thorough": 16}
 TIMEOUT = {"quick": 400, "thorough": 3000}
@@ -95,6 +96,8 @@ def layout(case):
             z.append(zc)
             r.append(rc)
             prev, zp, rp = len(z) - 1, zc, rc
+        if case.get("zero_tip") and m >= 1:
+            r[-1] = 0.0  # a tip that tapers to a point: a cone, a sphere of volume zero
     return np.array(z), np.array(r), np.array(pid, dtype=np.int32)
 
 
@@ -110,6 +113,14 @@ def build(case):
         u = rng.normal(size=3)
         u /= np.linalg.norm(u)
     off = rng.normal(size=3) * case["offset"]
+    if case.get("far_exact"):
+        # far from the origin but exactly representable: an axis-aligned line, positions on a
+        # 1/4 grid, offset 2^18 (float32 spacing there is 1/32), so no rounding blurs the layout
+        u = np.zeros(3)
+        u[int(rng.integers(0, 3))] = float(rng.choice([-1, 1]))
+        z = np.round(z * 4) / 4
+        r = np.maximum(np.round(r * 8) / 8, 0.125) * (r > 0)
+        off = np.array([262144.0, -262144.0, 131072.0])[rng.permutation(3)]
     xyz = (off + z[:, None] * u).astype(np.float32)
     r32 = r.astype(np.float32)
     typ = np.full(len(z), 3, dtype=np.int32)
@@ -222,6 +233,10 @@ def exec_union(ctx, case):
     if why:
         ctx.skip("generated layout not admissible: " + why)
         return
+    if case.get("zero_tip") and (r == 0).any():
+        ctx.count("zero_radius_tips")
+    if case.get("far_exact"):
+        ctx.count("far_exact_layouts")
     want = true_union(zz, r, pid)
     _classify(ctx, zz, r, pid)
     two_arm = case["arms"] == 2 and len(zz) > 2 and (pid == 0).sum() == 2
@@ -356,7 +371,8 @@ def run(ctx):
                                                "long"])),
                     "dir": str(rng.choice(["axis", "random", "random"])),
                     "offset": float(rng.choice([0.0, 10.0, 300.0])),
-                    "frontend": bool(rng.random() < 0.15)}
+                    "frontend": bool(rng.random() < 0.15),
+                    "zero_tip": bool(rng.random() < 0.15), "far_exact": bool(rng.random() < 0.12)}
             if arms == 1:
                 lv = [3, 4] + [int(x) for x in rng.choice([5, 6, 7, 8, 9], 2, replace=False)]
                 if rng.random() < 0.3:
